@@ -8,16 +8,34 @@
    inside the locked section): the table a late reflect opens is released by nobody.
    Library objects: a reader owns its mapping and every scanner created from it until Close.                                  *)
 EXTENDS Integers, Sequences, FiniteSets, TLC
-CONSTANTS MaxTables, MaxCycles, K, ReleaseBeforeJoin
-VARIABLES phase,     \* "closed" | "open" | "locking" (Close holds the lock) | "closing" (flusher joined, compactor not yet) | "joined"
-          tables,    \* table directories on disk
-          tableH,    \* open table readers (one mapping each)
-          walH,      \* WAL descriptor
-          flusher,   \* flusher goroutine alive
-          compactor, \* "none" | "idle" | "merging"  (background compactor goroutine)
-          csel,      \* number of tables the running compaction merges
-          released,  \* Close already released the handles
-          cycles
+CONSTANTS
+  \* @type: Int;
+  MaxTables,
+  \* @type: Int;
+  MaxCycles,
+  \* @type: Int;
+  K,
+  \* @type: Bool;
+  ReleaseBeforeJoin
+VARIABLES
+  \* @type: Str;
+  phase,     \* "closed" | "open" | "locking" (Close holds the lock) | "closing" (flusher joined, compactor not yet) | "joined"
+  \* @type: Int;
+  tables,    \* table directories on disk
+  \* @type: Int;
+  tableH,    \* open table readers (one mapping each)
+  \* @type: Int;
+  walH,      \* WAL descriptor
+  \* @type: Bool;
+  flusher,   \* flusher goroutine alive
+  \* @type: Str;
+  compactor, \* "none" | "idle" | "merging"  (background compactor goroutine)
+  \* @type: Int;
+  csel,      \* number of tables the running compaction merges
+  \* @type: Bool;
+  released,  \* Close already released the handles
+  \* @type: Int;
+  cycles
 vars == <<phase, tables, tableH, walH, flusher, compactor, csel, released, cycles>>
 handles == tableH + walH
 threads == (IF flusher THEN 1 ELSE 0) + (IF compactor # "none" THEN 1 ELSE 0)
